@@ -120,31 +120,35 @@ def _worker(modname, unit_index, tier, seed, q):
             if n_cex > 12:
                 item['replayed'] = None
                 item['info'] = 'replay skipped (more than 12 counterexamples in this unit)'
-            elif u.replay is not None:
-                try:
-                    ok, info = u.replay(model, notes)
-                    item['replayed'] = bool(ok)
-                    item['info'] = info
-                except Exception as ex:  # noqa: BLE001
-                    item['replayed'] = False
-                    item['info'] = 'replay crashed: %r\n%s' % (ex, traceback.format_exc()[-1500:])
             else:
-                # no native replay for this unit: concolic re-run - the same real code on proxies with every named input pinned
-                # to the model's value (floats as binary64 values); the counterexample is kept only if it shows up again
-                try:
-                    eng2 = EN.Engine(timeout_ms=u.timeout_ms, max_paths=200, max_seconds=120)
-                    eng2.fixed = dict(model)
-                    if u.setup:
-                        u.setup()
-                    res2 = eng2.run(u.fn)
-                    restore_shadows()
-                    again = [x for x in res2 if x[0] == 'cex']
-                    item['replayed'] = bool(again)
-                    item['info'] = dict(replay='concolic (proxies, inputs pinned to the model values); no native replay defined for this unit',
-                                        notes=again[0][4] if again else {})
-                except Exception as ex:  # noqa: BLE001
-                    item['replayed'] = False
-                    item['info'] = 'concolic replay crashed: %r' % (ex,)
+                native_info = None
+                ok = None
+                if u.replay is not None:
+                    try:
+                        ok, native_info = u.replay(model, notes)
+                    except Exception as ex:  # noqa: BLE001
+                        ok, native_info = False, 'replay crashed: %r\n%s' % (ex, traceback.format_exc()[-1500:])
+                if ok is not None:
+                    item['replayed'] = bool(ok)
+                    item['info'] = native_info
+                else:
+                    # no native replay for this unit (or the native replay declares this counterexample outside its reach):
+                    # concolic re-run - the same real code on proxies with every named input pinned to the model's value
+                    # (floats as binary64 values); the counterexample is kept only if it shows up again
+                    try:
+                        eng2 = EN.Engine(timeout_ms=u.timeout_ms, max_paths=200, max_seconds=120)
+                        eng2.fixed = dict(model)
+                        if u.setup:
+                            u.setup()
+                        res2 = eng2.run(u.fn)
+                        restore_shadows()
+                        again = [x for x in res2 if x[0] == 'cex']
+                        item['replayed'] = bool(again)
+                        item['info'] = dict(replay='concolic (proxies, inputs pinned to the model values); no native replay for this counterexample',
+                                            native=native_info, notes=again[0][4] if again else {})
+                    except Exception as ex:  # noqa: BLE001
+                        item['replayed'] = False
+                        item['info'] = 'concolic replay crashed: %r' % (ex,)
             final.append(item)
         out['results'] = final
         out['status'] = 'done'
